@@ -898,7 +898,7 @@ def reach_floor(ctx):
         got = reach.get(f, {}).get('executed')
         if got is not None and got < floor:
             low['statements executed in ' + f] = got
-    if low and not ctx.violations and not ctx.broken:
+    if low and not ctx.violations and not ctx.broken and not ctx.disagreements:
         raise common.MachineryError('generator reach fell below the floor: %r' % low)
 
 
